@@ -68,7 +68,7 @@ type concCex struct {
 }
 
 func findConcSpec(prop string) (*concSpec, string) {
-	ms, _ := filepath.Glob(filepath.Join(verifDir, "harness", "*", "conc_"+prop+".json"))
+	ms, _ := filepath.Glob(filepath.Join(harnessDir, "*", "conc_"+prop+".json"))
 	if len(ms) == 0 {
 		return nil, ""
 	}
